@@ -1,7 +1,9 @@
 """GenPath.v: PATH_SECURITY_* flags, permission constants (tools/probes/path_probe.c), and — observed with
 strace + a --wrap shim on a real start of munged built from the repo's current sources — the flags every
-call site hands to path_is_secure() and the (requested mode, umask in force) recipe of each created file
-(socket, lock, pid, log, seed) in foreground and in daemon mode."""
+call site hands to path_is_secure(), the (requested mode, umask in force) recipe of each created file
+(socket, lock, pid, log, seed) in foreground and in daemon mode, how each of them is created (is the name
+unlinked first, O_EXCL, O_NOFOLLOW), and — observed by starting munged with real uid != effective uid and the
+file or directory in question owned by either — which of the two each ownership test compares with."""
 import os, re, shutil, signal, subprocess, tempfile, threading, time
 
 PROBE_UMASKS = (0o000, 0o777, 0o525)     # two determine the bitwise-affine recipe, the third checks it
@@ -89,7 +91,7 @@ def _trace_one(exe, top, tag, fg, umask, res):
     os.chmod(paths["key"], 0o600)
     pis = os.path.join(T, "pis.log")
     tr = os.path.join(T, "trace")
-    argv = ["strace", "-f", "-o", tr, "-e", "trace=umask,open,openat,creat,bind,chmod,fchmod,fchmodat",
+    argv = ["strace", "-f", "-o", tr, "-e", "trace=umask,open,openat,creat,bind,chmod,fchmod,fchmodat,unlink,unlinkat",
             exe] + (["-F"] if fg else []) + ["-S", paths["sock"], "--key-file=" + paths["key"],
             "--pid-file=" + paths["pid"], "--seed-file=" + paths["seed"], "--log-file=" + paths["log"],
             "--group-update-time=-1", "--origin=127.0.0.1"]
@@ -144,8 +146,13 @@ def _trace_one(exe, top, tag, fg, umask, res):
     in_force = umask
     fd_path = {}
     created = {}
+    last_op = {}          # path -> "unlink" when the last call that named it was unlink(2)/unlinkat(2)
     rev = {v: k for k, v in paths.items()}
     for line in _merged_lines(tr):
+        m = re.search(r'\b(?:unlink\(|unlinkat\(AT_FDCWD, )"([^"]*)"', line)
+        if m:
+            last_op[m.group(1)] = "unlink"
+            continue
         m = re.search(r"\bumask\((0[0-7]*|0)\)", line)
         if m:
             in_force = int(m.group(1), 8)
@@ -158,13 +165,17 @@ def _trace_one(exe, top, tag, fg, umask, res):
             if path == paths["seed"] and "O_CREAT" not in flags and "O_RDONLY" in flags:
                 out.setdefault("seed_open", set()).add("O_NONBLOCK" in flags or "O_NDELAY" in flags)
             if path in rev and ("O_CREAT" in flags or "creat(" in line) and fd >= 0 and mode is not None:
-                created[rev[path]] = {"req": int(mode, 8), "mask": in_force, "chmod": None}
+                created[rev[path]] = {"req": int(mode, 8), "mask": in_force, "chmod": None,
+                                      "how": (last_op.get(path) == "unlink", "O_EXCL" in flags, "O_NOFOLLOW" in flags)}
+            last_op[path] = "open"
             continue
         m = re.search(r'\bbind\((\d+), \{sa_family=AF_UNIX, sun_path="([^"]*)"\}, \d+\)\s*=\s*0', line)
         if m:
             fd_path[int(m.group(1))] = m.group(2)
             if m.group(2) in rev:
-                created[rev[m.group(2)]] = {"req": SOCK_INODE_MODE, "mask": in_force, "chmod": None}
+                created[rev[m.group(2)]] = {"req": SOCK_INODE_MODE, "mask": in_force, "chmod": None,
+                                            "how": (last_op.get(m.group(2)) == "unlink", False, False)}
+            last_op[m.group(2)] = "bind"
             continue
         m = re.search(r'\b(?:chmod\(|fchmodat\(AT_FDCWD, )"([^"]*)", (0[0-7]*)', line)
         if m and m.group(1) in rev and rev[m.group(1)] in created and re.search(r"=\s*0\s*$", line):
@@ -185,8 +196,153 @@ def _trace_one(exe, top, tag, fg, umask, res):
     out["pis"] = sites
 
 
+ID_REAL, ID_EFF = 4343, 4242        # two unprivileged uids for the identity probe
+OWNER_SITES = ("dir", "key", "seed", "log", "lock")
+OWNER_COMPLAINT = {
+    "dir": r'PRNG seed dir is insecure: invalid ownership of',
+    "key": r'Keyfile is insecure: "[^"]*" should be owned by UID',
+    "seed": r'Ignoring PRNG seed "[^"]*": must be owned by UID',
+    "log": r'Logfile is insecure: "[^"]*" should be owned by UID',
+    "lock": r'Failed to validate lockfile: "[^"]*" should be owned by',
+}
+
+
+def build_launcher(top):
+    exe = os.path.join(top, "c16_launch")
+    src = os.path.join(os.path.dirname(os.path.dirname(os.path.dirname(os.path.abspath(__file__)))), "harness", "c16_launch.c")
+    r = subprocess.run(["gcc", "-w", "-O1", "-o", exe, src], capture_output=True, text=True, timeout=120)
+    if r.returncode != 0:
+        raise RuntimeError("c16_launch.c does not compile: " + r.stderr[-500:])
+    return exe
+
+
+def _id_probe(exe, launcher, top, tag, site, ruid, euid, owner, res, key_owner=None):
+    """one start with real uid != effective uid where the object vetted at `site` belongs to `owner`;
+    res[tag] = (munged complained about that ownership, text).  The start-up checks run in the order log file,
+    seed directory, seed file, key file, ..., lock file: a probe only needs the checks before its own to pass."""
+    T = os.path.join(top, tag)
+    os.mkdir(T, 0o755)
+    os.chmod(T, 0o755)
+    paths = {}
+    for d, f in (("kd", "key"), ("sd", "seed"), ("ld", "log"), ("rd", "sock"), ("pd", "pid")):
+        dd = os.path.join(T, d)
+        os.mkdir(dd, 0o755)
+        if site == "dir" and f == "seed":
+            os.chown(dd, owner, 0)
+            os.chmod(dd, 0o755)
+            dd = os.path.join(dd, "k2")
+            os.mkdir(dd, 0o755)
+        os.chown(dd, euid, 0)
+        os.chmod(dd, 0o755)
+        paths[f] = os.path.join(dd, f)
+    paths["lock"] = paths["sock"] + ".lock"
+
+    def mk(path, uid, mode, data):
+        with open(path, "wb") as f:
+            f.write(data)
+        os.chown(path, uid, 0)
+        os.chmod(path, mode)
+
+    mk(paths["key"], owner if site == "key" else (euid if key_owner is None else key_owner), 0o600, os.urandom(32))
+    if site == "seed":
+        mk(paths["seed"], owner, 0o600, os.urandom(1024))
+    if site == "log":
+        mk(paths["log"], owner, 0o600, b"")
+    if site == "lock":
+        mk(paths["lock"], owner, 0o200, b"")
+    fg = site != "log"
+    errf = os.path.join(T, "stderr")
+    argv = [launcher, str(ruid), str(euid), "0", "0", "022", exe] + (["-F"] if fg else []) + [
+        "-S", paths["sock"], "--key-file=" + paths["key"], "--pid-file=" + paths["pid"],
+        "--seed-file=" + paths["seed"], "--log-file=" + paths["log"], "--group-update-time=-1",
+        "--origin=127.0.0.1", "--num-threads=1"]
+    with open(errf, "wb") as ef:
+        os.chmod(errf, 0o666)
+        p = subprocess.Popen(argv, stdin=subprocess.DEVNULL, stdout=ef, stderr=ef, cwd="/")
+    try:
+        t0 = time.time()
+        while time.time() - t0 < 15:
+            if fg and p.poll() is not None:
+                break
+            if not fg and p.poll() is not None and p.returncode != 0:
+                break
+            try:
+                if os.path.getsize(paths["pid"]) > 0:
+                    break
+            except OSError:
+                pass
+            time.sleep(0.01)
+        try:
+            dpid = int(open(paths["pid"]).read().strip())
+        except Exception:
+            dpid = None
+        for _ in range(40):
+            if dpid is None:
+                break
+            try:
+                os.kill(dpid, signal.SIGTERM)
+            except OSError:
+                break
+            time.sleep(0.05)
+            if not os.path.exists("/proc/%d" % dpid) or open("/proc/%d/stat" % dpid).read().split(")")[-1].split()[0] == "Z":
+                break
+        try:
+            p.wait(timeout=5)
+        except subprocess.TimeoutExpired:
+            pass
+    finally:
+        if p.poll() is None:
+            p.kill()
+            p.wait()
+        kill_by_marker(T)
+    text = open(errf, errors="replace").read()
+    if not fg:
+        try:
+            text += open(paths["log"], errors="replace").read()
+        except OSError:
+            pass
+    res[tag] = (re.search(OWNER_COMPLAINT[site], text) is not None, text[-600:])
+
+
+def owner_ids(exe, launcher, top):
+    """{site: 0 (real uid) | 1 (effective uid)}: which uid the ownership test at each site compares with"""
+    res = {}
+
+    def probe(sites, key_owner=None):
+        th = []
+        for site in sites:
+            ruid, euid = (ID_REAL, ID_EFF) if site == "dir" else (ID_REAL, 0)
+            for who, owner in (("r", ruid), ("e", euid)):
+                tag = "id_%s_%s" % (site, who)
+                ko = None if key_owner is None else (ruid if key_owner == 0 else euid)
+                t = threading.Thread(target=_id_probe, args=(exe, launcher, top, tag, site, ruid, euid, owner, res, ko))
+                t.start()
+                th.append(t)
+        for t in th:
+            t.join()
+
+    out = {}
+    probe([x for x in OWNER_SITES if x != "lock"])
+    for site in OWNER_SITES:
+        if site == "lock":      # the lock comes after the key: hand the key to whichever uid the key test wants
+            probe(["lock"], key_owner=out["key"])
+        cr, ce = res.get("id_%s_r" % site), res.get("id_%s_e" % site)
+        if cr is None or ce is None:
+            raise RuntimeError("identity probe for the %s ownership test did not run" % site)
+        if cr[0] and not ce[0]:
+            out[site] = 1
+        elif ce[0] and not cr[0]:
+            out[site] = 0
+        else:
+            raise RuntimeError("the %s ownership test follows neither the real nor the effective uid "
+                               "(owned by real uid: %s; owned by effective uid: %s)\n%s\n%s"
+                               % (site, "refused" if cr[0] else "accepted", "refused" if ce[0] else "accepted",
+                                  cr[1][-300:], ce[1][-300:]))
+    return out
+
+
 def observe(repo, incs, defs, probes_dir):
-    """returns (flags per call site, {('fg'|'bg', file): (req, keep, or, chmod)})"""
+    """returns (flags per call site, {('fg'|'bg', file): (req, keep, or, chmod, how)}, {site: owner id})"""
     if not shutil.which("strace"):
         raise RuntimeError("strace not found")
     top = tempfile.mkdtemp(prefix="verif-pathfacts-")
@@ -197,6 +353,17 @@ def observe(repo, incs, defs, probes_dir):
                                extra=[os.path.join(probes_dir, "path_wrap.c"), "-Wl,--wrap=path_is_secure"])
         if rc != 0:
             raise RuntimeError("munged does not build from the repo's sources:\n" + err)
+        launcher = build_launcher(top)
+        ids_box = {}
+
+        def run_ids():
+            try:
+                ids_box["ids"] = owner_ids(exe, launcher, top)
+            except Exception as e:          # re-raised in the caller's thread below
+                ids_box["err"] = e
+
+        idt = threading.Thread(target=run_ids)
+        idt.start()
         res, th = {}, []
         for fg in (True, False):
             for u in PROBE_UMASKS:
@@ -206,6 +373,9 @@ def observe(repo, incs, defs, probes_dir):
                 th.append(t)
         for t in th:
             t.join()
+        idt.join()
+        if "err" in ids_box:
+            raise RuntimeError(str(ids_box["err"]))
         for tag, r in sorted(res.items()):
             if r["err"]:
                 raise RuntimeError("%s: %s" % (tag, r["err"]))
@@ -246,12 +416,14 @@ def observe(repo, incs, defs, probes_dir):
                     pts.append(c)
                 if len({(c["req"], c["chmod"]) for c in pts}) != 1:
                     raise RuntimeError("%s file (%s): requested mode / chmod depends on the umask" % (f, md))
+                if len({c["how"] for c in pts}) != 1:
+                    raise RuntimeError("%s file (%s): unlink-before-create / open flags depend on the umask" % (f, md))
                 orb = pts[0]["mask"]
                 keep = pts[1]["mask"] & ~orb & 0o777
                 if pts[2]["mask"] != ((PROBE_UMASKS[2] & keep) | orb):
                     raise RuntimeError("%s file (%s): umask in force is not (inherited & keep) | or" % (f, md))
-                recipes[(md, f)] = (pts[0]["req"], keep, orb, pts[0]["chmod"])
-        return flags, recipes
+                recipes[(md, f)] = (pts[0]["req"], keep, orb, pts[0]["chmod"], pts[0]["how"])
+        return flags, recipes, ids_box["ids"]
     finally:
         kill_by_marker(top)
         shutil.rmtree(top, ignore_errors=True)
@@ -260,7 +432,7 @@ def observe(repo, incs, defs, probes_dir):
 def gen(api):
     head = api.run_probe("path_probe.c")
     try:
-        flags, recipes = observe(api.REPO, api.INCS, api.DEFS, api.PROBES)
+        flags, recipes, ids = observe(api.REPO, api.INCS, api.DEFS, api.PROBES)
     except RuntimeError as e:
         raise api.GenError("path facts: %s" % e)
     out = [head.rstrip("\n")]
@@ -276,7 +448,21 @@ def gen(api):
         for f in FILES:
             if (md, f) not in recipes:
                 continue
-            req, keep, orb, ch = recipes[(md, f)]
+            req, keep, orb, ch, how = recipes[(md, f)]
             out.append("Definition %s_%s : N * N * N * option N := (%d, %d, %d, %s).  (* 0%o, 0%o, 0%o *)"
                        % (md, f, req, keep, orb, "None" if ch is None else "Some %d" % ch, req, keep, orb))
+    out.append("(* how each file is created: (the name is unlinked first, O_EXCL, O_NOFOLLOW), from the same traces *)")
+    for md in ("fg", "bg"):
+        for f in FILES:
+            if (md, f) not in recipes:
+                continue
+            how = recipes[(md, f)][4]
+            out.append("Definition %s_%s_how : bool * bool * bool := (%s, %s, %s)."
+                       % ((md, f) + tuple("true" if x else "false" for x in how)))
+    out.append("(* which of the process's user ids each ownership test compares with, observed by starting munged with")
+    out.append("   real uid <> effective uid and the file (directory) in question owned by either *)")
+    out.append("Definition id_real : N := 0.")
+    out.append("Definition id_effective : N := 1.")
+    for site in OWNER_SITES:
+        out.append("Definition %s_owner_id : N := %d." % (site, ids[site]))
     return api.write_gen("GenPath.v", "\n".join(out) + "\n")
